@@ -275,19 +275,25 @@ class Parser:
             # imported).
             source_files = [hints_file, grammar_file]
             source_files.extend(Path(f) for f in self.grammar.imported_files)
-            if not hints_file_compiled.exists() or any(
+            if hints_file_compiled.exists() and not any(
                 f.stat().st_mtime > hints_file_compiled.stat().st_mtime
                 for f in source_files
             ):
+                try:
+                    with open(hints_file_compiled) as f:
+                        loaded = json.load(f)
+                    compiled_hints = {ast.literal_eval(k): v for k, v in loaded.items()}
+                except (ValueError, SyntaxError, AttributeError):
+                    # Compiled file is corrupted or incomplete (e.g. left by
+                    # an interrupted write). Recompile.
+                    compiled_hints = None
+
+            if compiled_hints is None:
                 # Compilation is needed
                 compiled_hints = compile_errors(hints_file)
                 with open(hints_file_compiled, "w") as f:
                     serializable = {str(k): v for k, v in compiled_hints.items()}
                     json.dump(serializable, f)
-            else:
-                with open(hints_file_compiled) as f:
-                    loaded = json.load(f)
-                    compiled_hints = {ast.literal_eval(k): v for k, v in loaded.items()}
 
         del self._in_error_hints
         return compiled_hints
